@@ -3,11 +3,15 @@
    BFS enumerates every operation sequence up to length L; -dump writes them out.  Every
    behaviour of Combinators is finite (each action consumes an input, the single Create, the
    single CancelOut, time on the timer, or a queued / pending next()), L is a safety net. *)
-EXTENDS Combinators
+EXTENDS Combinators, Json
 CONSTANT L
 VARIABLE hist
 GenInit == InitState /\ hist = <<>>
 GenNext == Next /\ hist' = Append(hist, step')
 GenSpec == GenInit /\ [][GenNext]_<<vars, step, hist>>
 GenBound == Len(hist) <= L
+(* every complete behaviour (no action enabled, or cut by L) is printed once as JSON: with hist in
+   the state each path is one distinct state, and a state constraint is evaluated once per state *)
+GenOut == (Len(hist) > 0 /\ (Len(hist) = L \/ ~ENABLED Next)) =>
+              PrintT(ToJson(<<"VPATH", cfg, hist>>))
 =============================================================================
